@@ -65,7 +65,7 @@ def run_static(ctx, prop, scenario, variants, sections, rule, level="model_check
             if vmax is not None and taken >= vmax:
                 break
             taken += 1
-            if "compact" in v["impl"] or v["impl"] in ("diff", "layered-mixed"):
+            if ("compact" in v["impl"] or v["impl"] in ("diff", "layered-mixed")) and v["impl"] != "pardiff-basic":
                 # two known deviations of the compact builder are kept out of the properties they do not belong to:
                 # it keeps areas over open/short paths (C37, known finding) and it crashes on a source that has a
                 # relation or path but no point at all (C01, known finding)
@@ -77,7 +77,8 @@ def run_static(ctx, prop, scenario, variants, sections, rule, level="model_check
                         continue
             k = dict(c)
             k.update({"id": len(cases), "impl": v["impl"], "cores": v.get("cores", 1), "split": v.get("split", 1),
-                      "keys": keys, "ids": ids, "queries": qs, "sections": v.get("sections", sections)})
+                      "keys": keys, "ids": ids, "queries": qs, "sections": v.get("sections", sections),
+                      "order": v.get("order", "")})
             cases.append(k)
     if cases:
         c0 = cases[min(len(cases) - 1, 11)]
@@ -88,7 +89,7 @@ def run_static(ctx, prop, scenario, variants, sections, rule, level="model_check
     for v in vs:
         ctx.evaluations += 1
         c = cases[v["id"]]
-        ctx.distinct_cases.add(canon([scenario, c["impl"], c["cores"], c["split"], c["src"], c.get("upper")]))
+        ctx.distinct_cases.add(canon([scenario, c["impl"], c["cores"], c["split"], c.get("order"), c["src"], c.get("upper")]))
         for k, cnt in (v.get("stats") or {}).items():
             ctx.extra_cov[k] = ctx.extra_cov.get(k, 0) + cnt
         if v.get("ok"):
